@@ -9,7 +9,8 @@
             over {RZ(%t) a, SA(%t) a, SB(%t+1) a, SC(2*%t) a}: every reference graph on three nodes with
             out-degree <= 2 (nesting, diamonds, cycles of length 1, 2 and 3, definitions reachable only
             through selected / unselected ones) x all 8 filters.  By the symmetry of the names it is enough
-            to invoke SA (bodies with a second invocation in the thorough tier).
+            to invoke SA (BodyLevel 2, thorough tier: also bodies with two or three instructions, for the
+            tables whose third definition has one element).
 
    "subst"  SA(%t) a with 1..2 elements, SB a b (no parameter, two formal qubits, deliberately written
             b-before-a in its elements) with 1 element, and the matrix definition MG; elements and body
@@ -42,12 +43,12 @@ GElems == {Gate("RZ", <<pt>>, <<qa>>, <<>>), Gate("SA", <<pt>>, <<qa>>, <<>>),
            Gate("SB", <<Inf("+", pt, N("1"))>>, <<qa>>, <<>>), Gate("SC", <<Inf("*", N("2"), pt)>>, <<qa>>, <<>>)}
 GNames == <<"SA", "SB", "SC">>
 GDefChoices(n) == {SeqDef(GNames[n], <<"t">>, <<"a">>, gs) : gs \in SeqsUpTo(GElems, Width[n])}
-GBodies == {<<Gate("SA", <<N("3")>>, <<Q(0)>>, <<>>)>>}
-           \cup (IF BodyLevel >= 2
-                 THEN {<<Gate("X", <<>>, <<Q(0)>>, <<>>), Gate("SB", <<N("3")>>, <<Q(1)>>, <<>>),
-                         Gate("SA", <<N("4")>>, <<Q(0)>>, <<>>)>>,
-                       <<Gate("SC", <<N("5")>>, <<Q(2)>>, <<>>), Other("NOP")>>}
-                 ELSE {})
+GBasic == {<<Gate("SA", <<N("3")>>, <<Q(0)>>, <<>>)>>}
+GMore  == {<<Gate("X", <<>>, <<Q(0)>>, <<>>), Gate("SB", <<N("3")>>, <<Q(1)>>, <<>>),
+             Gate("SA", <<N("4")>>, <<Q(0)>>, <<>>)>>,
+           <<Gate("SC", <<N("5")>>, <<Q(2)>>, <<>>), Other("NOP")>>}
+\* BodyLevel 2: the longer bodies for the tables whose third definition has one element
+GBodies(ds) == GBasic \cup (IF BodyLevel >= 2 /\ Len(ds[3].gates) = 1 THEN GMore ELSE {})
 GFilterNames == {"SA", "SB", "SC"}
 
 \* ---- family "subst"
@@ -91,7 +92,7 @@ SFilterNames == {"SA", "SB", "MG"}
 
 NDefs == 3
 DefChoices(n) == IF Family = "graph" THEN GDefChoices(n) ELSE SDefChoices(n)
-Bodies == IF Family = "graph" THEN GBodies ELSE SBodies
+Bodies == IF Family = "graph" THEN GBodies(defs) ELSE SBodies
 FilterNames == IF Family = "graph" THEN GFilterNames ELSE SFilterNames
 
 FilterChoices == IF FilterLevel >= 2 \/ Len(defs[1].gates) < 2 THEN SUBSET FilterNames
